@@ -32,7 +32,7 @@ type replayT struct {
 }
 
 var allOracles = map[string]func(*Exec) []verdict{
-	"C01": oracleC01, "C02": oracleC02, "C03": oracleC03, "C15": oracleC15, "C04": oracleC04, "C10": oracleC10, "C05": oracleC05,
+	"C01": oracleC01, "C02": oracleC02, "C03": oracleC03, "C15": oracleC15, "C04": oracleC04, "C10": oracleC10, "C05": oracleC05, "C08": oracleC08,
 }
 
 func main() {
@@ -116,6 +116,33 @@ func main() {
 	case "C04":
 		c04family(thorough, add)
 		famDesc = append(famDesc, "programs on <=2 steps (3 thorough) x outcome scripts x every subset of {onSuccess,onFailure,onCancel,onExit} scripted ok/fail x {no stop, stop at every explored instant}")
+	case "C08":
+		// agent-level programs observed at every decision: all programs on <= 2 steps (3 thorough) over the script alphabet
+		maxN := 2
+		if thorough {
+			maxN = 3
+		}
+		for n := 1; n <= maxN; n++ {
+			sc := scriptsFull
+			if n == 3 {
+				sc = scriptsReduced
+			}
+			programs(famOpts{n: n, scripts: sc, maxActive: []int{0, 1}, delays: []int{0}, intervalMs: 1000, coAll: false, maxRetry: 1}, func(c *Config) {
+				cc := *c
+				cc.Agent, cc.Observe, cc.CleanupMs = true, true, 10000
+				cc.Handlers = map[string]string{"onExit": "ok", "onFailure": "ok"}
+				add(&cc, 0, 300000, "C08")
+			})
+		}
+		for i, c := range sharp() {
+			if i > 3 && !thorough {
+				break
+			}
+			cc := *c
+			cc.Agent, cc.Observe, cc.CleanupMs, cc.DoneSync, cc.OutBytes = true, true, 10000, true, 10
+			add(&cc, 1, 1000000, "C08")
+		}
+		famDesc = append(famDesc, "agent-level (real agent.Agent, Agent.Status() called at every scheduling decision and after the run): all programs on <=2 steps (3 thorough) x scripts x maxActiveRuns {0,1}, PB(0); PB(1) on the sharp list with the agent's channel arrangement")
 	case "C05":
 		c05family(thorough, add)
 		famDesc = append(famDesc, "agent-level: {single step, chain of 2, two parallel, retrying step + dependent} x {step ends by itself, ends only on signal, ignores SIGTERM} + signalOnStop, repeating and always-failing-retry steps; stop through the /stop path (a.signal(SIGTERM,true)) and through a.Signal(SIGTERM) at every explored instant; PB(1) on 3 programs; DAG timeout 1 s with hanging steps; maxCleanUpTime 10 s (virtual)")
@@ -192,6 +219,9 @@ func main() {
 				if len(res.Samples) < 5 && (len(x.Events) > 6 || len(res.Samples) == 0) && res.Evaluations%7 == 1 {
 					res.Sample(map[string]any{"config": j.cfg.String(), "choices": choicesString(x.Choices), "trace": x.trace(), "final": x.finalsString()})
 				}
+			}
+			if x.observations > 0 {
+				res.Validated += int64(x.observations)
 			}
 			if sub == "C15" && x.highWater > 0 {
 				res.Counters[fmt.Sprintf("high_water=%d", x.highWater)]++
